@@ -559,40 +559,82 @@ type c10Pool struct {
 	bad   []int // ineligible / failed-pipeline results (only the post-processor may see them)
 }
 
+// block numbers at and around 2^31, 2^32, 2^53, 2^63 and the ends of the uint64 range
+var c10WideBlocks = []uint64{0, 1, 5, 1<<31 - 1, 1 << 31, 1<<32 - 1, 1 << 32, 1<<53 - 1, 1<<53 + 1,
+	1<<63 - 1, 1 << 63, 1<<63 + 1, 1<<63 + 5, 1<<63 + 10, 1<<64 - 8, 1<<64 - 2, 1<<64 - 1}
+
 func c10MakePool(r *Rng, nIDs int) *c10Pool {
 	p := &c10Pool{byWid: map[string][]int{}}
 	for i := 0; i < nIDs; i++ {
 		uid := genUpkeepID(r, r.Chance(50))
 		base := genResult(r, uid, 1000)
 		p.wids = append(p.wids, base.WorkID)
-		b0 := uint64(r.Range(2, 1000))
-		nb := r.Range(2, 5)
-		for b := 0; b < nb; b++ {
+		// check blocks of this work id: ordinary neighbours, or values at and across the powers of two a
+		// uint64 comparison can go wrong at (pairs up to 2^64-1 apart)
+		var blocks []uint64
+		if r.Chance(65) {
+			b0 := uint64(r.Range(2, 1000))
+			for b, nb := 0, r.Range(2, 5); b < nb; b++ {
+				blocks = append(blocks, b0+uint64(b))
+			}
+		} else {
+			seen := map[uint64]bool{}
+			for len(blocks) < r.Range(2, 5) {
+				b := c10WideBlocks[r.Intn(len(c10WideBlocks))]
+				if r.Chance(30) {
+					b += uint64(r.Intn(7)) // wraps past 2^64-1 on purpose: still a valid uint64
+				}
+				if !seen[b] {
+					seen[b] = true
+					blocks = append(blocks, b)
+				}
+			}
+		}
+		for _, blk := range blocks {
 			for v := 0; v < 1+r.Intn(2); v++ { // same work id and block, different content
 				c := base
-				c.Trigger.BlockNumber = ocr2keepers.BlockNumber(b0 + uint64(b))
+				c.Trigger.BlockNumber = ocr2keepers.BlockNumber(blk)
 				c.Trigger.BlockHash = genHash(r)
 				c.PerformData = r.Bytes(1 + r.Intn(8))
+				// flag combinations a pipeline may legally return with state 0 and Eligible: they do not make
+				// the result any less eligible
+				switch r.Intn(6) {
+				case 0:
+					c.Retryable = true
+				case 1:
+					c.IneligibilityReason = uint8(r.Range(1, 9))
+				case 2:
+					c.Retryable = true
+					c.IneligibilityReason = uint8(r.Range(1, 9))
+				}
 				if wg(c.UpkeepID, c.Trigger) != base.WorkID {
 					panic("c10: work id depends on the check block")
 				}
 				p.byWid[base.WorkID] = append(p.byWid[base.WorkID], len(p.res))
 				p.res = append(p.res, toJCR(c))
-				p.blkOf = append(p.blkOf, b0+uint64(b))
+				p.blkOf = append(p.blkOf, blk)
 			}
 		}
 		if r.Chance(60) { // something the eligible post-processor must filter out
 			c := base
-			c.Trigger.BlockNumber = ocr2keepers.BlockNumber(b0 + 9)
-			if r.Bool() {
+			blk := blocks[len(blocks)-1] + 9
+			c.Trigger.BlockNumber = ocr2keepers.BlockNumber(blk)
+			switch r.Intn(4) {
+			case 0:
 				c.Eligible = false
 				c.IneligibilityReason = 1
-			} else {
+			case 1:
+				c.Eligible = false
+				c.Retryable = true
+			case 2:
+				c.PipelineExecutionState = uint8(r.Range(1, 3))
+				c.Retryable = r.Bool()
+			default:
 				c.PipelineExecutionState = uint8(r.Range(1, 3))
 			}
 			p.bad = append(p.bad, len(p.res))
 			p.res = append(p.res, toJCR(c))
-			p.blkOf = append(p.blkOf, b0+9)
+			p.blkOf = append(p.blkOf, blk)
 		}
 	}
 	return p
@@ -874,7 +916,13 @@ func c10GenVolume(r *Rng, ttl, gci int64, n int, em *Emitter) c10Input {
 	in := c10Input{TTL: ttl, GCI: gci, StartDt: int64(r.U64() % uint64(gci))}
 	old := r.Range(10, 60)
 	for i := 0; i < n+old; i++ {
-		in.Res = append(in.Res, toJCR(genResult(r, genUpkeepID(r, i%3 != 0), uint64(r.Range(5, 5000)))))
+		blk := uint64(r.Range(5, 5000))
+		if r.Chance(10) {
+			blk = c10WideBlocks[3+r.Intn(len(c10WideBlocks)-3)]
+		}
+		c := genResult(r, genUpkeepID(r, i%3 != 0), blk)
+		c.Retryable = r.Chance(15)
+		in.Res = append(in.Res, toJCR(c))
 	}
 	now := in.StartDt
 	push := func(op c10Op) {
@@ -947,8 +995,13 @@ func c10Edge(ttl, gci int64) []c10Input {
 	inel := base
 	inel.Eligible = false
 	inel.Trigger.BlockNumber = 99
+	retry := other // state 0, eligible, and flagged retryable with a reason: still an eligible result
+	retry.Retryable = true
+	retry.IneligibilityReason = 3
 	// 0: w@10  1: w@10'  2: w@5  3: w@11  4: other@7  5: w@99 ineligible
-	res := []JCR{at(10, 1), at(10, 2), at(5, 3), at(11, 4), toJCR(other), toJCR(inel)}
+	// 6: w@2^63+5  7: w@2^64-1  8: w@0  9: other@7 retryable
+	res := []JCR{at(10, 1), at(10, 2), at(5, 3), at(11, 4), toJCR(other), toJCR(inel),
+		at(1<<63+5, 6), at(1<<64-1, 7), at(0, 8), toJCR(retry)}
 	mk := func(start int64, ops ...c10Op) c10Input {
 		return c10Input{TTL: ttl, GCI: gci, StartDt: start, Res: res, Ops: ops}
 	}
@@ -978,6 +1031,11 @@ func c10Edge(ttl, gci int64) []c10Input {
 			c10Op{K: "padd", Dt: 1, Rs: []int{2, 4, 3}, Ctx: "cancel", N: 1}, view(0)),
 		mk(5, c10Op{K: "flow", Dt: 1, Rs: []int{0, 4}, Delay: int64(flows.ObservationProcessLimit) + 1}, view(0),
 			c10Op{K: "flow", Dt: gci - int64(flows.ObservationProcessLimit), Rs: []int{3}, Delay: int64(flows.ObservationProcessLimit)}, view(0)),
+		// check blocks more than 2^63 apart: higher replaces, lower never does (uint64 order, no wrap-around)
+		mk(3, add(1, 2), add(1, 6), view(0), add(1, 2), view(0), add(1, 7), view(0), add(1, 8), add(1, 0), view(0)),
+		mk(3, add(1, 8), add(1, 7), view(0), add(1, 8), add(1, 6), view(0)),
+		// retryable / reason flags on a state-0 eligible result do not make it less eligible
+		mk(3, c10Op{K: "padd", Dt: 1, Rs: []int{9, 5}}, view(0), c10Op{K: "flow", Dt: 1, Rs: []int{9, 0}, Delay: 1}, view(0)),
 		// empty calls
 		mk(0, add(0), c10Op{K: "rm"}, c10Op{K: "hook"}, c10Op{K: "padd"}, view(0)),
 		// burst on one work id
